@@ -25,6 +25,7 @@ RULE = (
     "and modifier caches), computed before and again after the history. Non-trivial = the history "
     "contains a failing conversion or a second backend before the probe."
 )
+RULE += (" Further backends of the same class may use a second pipeline definition with another variable table; probes include a placeholder that only that table defines (fresh result: error).")
 ASSUMPTIONS = [
     "results are compared as strings (same code, same configuration)",
     "the internal name of an added condition is random; it never appears in the compared output",
@@ -42,9 +43,11 @@ PIPELINE = {
         {"id": "rf", "type": "rule_failure", "message": "planted failure", "rule_conditions": [{"type": "logsource", "category": "failcat"}]},
         {"id": "nest", "type": "nest", "items": [{"id": "inner", "type": "field_name_suffix", "suffix": "_n",
                                                   "field_name_conditions": [{"type": "include_fields", "fields": ["h"]}]}]},
-        {"id": "ph", "type": "value_placeholders", "include": ["known"]},
+        {"id": "ph", "type": "value_placeholders", "include": ["known", "other"]},
     ],
 }
+# a second pipeline definition for further backends of the same class: other variable table
+PIPELINE2 = dict(copy.deepcopy(PIPELINE), vars={"known": ["k9"], "other": ["o1", "o2"]})
 CFG = {"cs": False, "cs_shortcuts": False}
 
 
@@ -56,6 +59,8 @@ def rule_doc(i: int, kind: str, ls: dict, cond_idx: int = 0):
     cond = CONDS[cond_idx % len(CONDS)]
     if kind == "placeholder":
         det["sel"]["p|expand"] = "%known%"
+    elif kind == "placeholder_other":  # a variable that only the second pipeline definition has
+        det["sel"]["p|expand"] = "%other%"
     elif kind == "cased":  # unsupported value kind: NotImplementedError while rendering
         det["sel"]["c|cased"] = "Case"
     elif kind == "neg_cased":
@@ -140,9 +145,14 @@ def check_case(case: dict) -> Outcome:
         kind = op[0]
         try:
             if kind == "new_backend":
-                backends.append(K(shared_pipeline if op[1] else _mk_pipeline(), collect))
+                if op[1] == 2:
+                    from sigma.processing.pipeline import ProcessingPipeline
+                    backends.append(K(ProcessingPipeline.from_dict(copy.deepcopy(PIPELINE2)), collect))
+                    hist.append(f"b{len(backends) - 1}=new(pipeline with other vars)")
+                else:
+                    backends.append(K(shared_pipeline if op[1] else _mk_pipeline(), collect))
+                    hist.append(f"b{len(backends) - 1}=new({'shared' if op[1] else 'own'} pipeline)")
                 second_backend = True
-                hist.append(f"b{len(backends) - 1}=new({'shared' if op[1] else 'own'} pipeline)")
             elif kind == "init":
                 b = op[1] % len(backends)
                 backends[b].init_processing_pipeline()
@@ -165,7 +175,9 @@ def check_case(case: dict) -> Outcome:
                 backends[b].convert(SigmaCollection.from_dicts(copy.deepcopy(sel)))
         except Exception:  # noqa - failing conversions are part of the history
             failing = True
-    pb = case["probe_backend"] % len(backends)
+    # the probe runs on a backend that uses the first pipeline definition (what the fresh result is computed for)
+    first_def = [i for i, h in enumerate(["b0"] + [h for h in hist if "=new(" in h]) if "other vars" not in h]
+    pb = first_def[case["probe_backend"] % len(first_def)]
     # errors collected during the history belong to the history, not to the probe
     backends[pb].errors = []
     if case["probe_via"] == "convert" or not hasattr(backends[pb], "last_processing_pipeline"):
@@ -193,14 +205,14 @@ def check_case(case: dict) -> Outcome:
 @st.composite
 def cases(draw):
     not_eq = draw(st.booleans())
-    kinds = ["plain", "plain", "placeholder", "cased", "missing", "multi"] + (["neg_cased"] if not_eq else [])
+    kinds = ["plain", "plain", "placeholder", "placeholder_other", "cased", "missing", "multi"] + (["neg_cased"] if not_eq else [])
     docs = [rule_doc(i, draw(st.sampled_from(kinds)), draw(st.sampled_from(LOGSOURCES)), draw(st.integers(0, 3))) for i in range(draw(st.integers(1, 4)))]
-    probe = rule_doc(9, draw(st.sampled_from(["plain", "placeholder", "multi"])), draw(st.sampled_from(LOGSOURCES[:4] + LOGSOURCES[5:])), draw(st.integers(0, 3)))
+    probe = rule_doc(9, draw(st.sampled_from(["plain", "placeholder", "placeholder_other", "multi"])), draw(st.sampled_from(LOGSOURCES[:4] + LOGSOURCES[5:])), draw(st.integers(0, 3)))
     ops = []
     for _ in range(draw(st.integers(0, 8))):
         k = draw(st.sampled_from(["new_backend", "init", "load", "convert_rule", "convert_rule", "convert", "convert"]))
         if k == "new_backend":
-            ops.append([k, draw(st.booleans())])
+            ops.append([k, draw(st.sampled_from([False, True, 2, 2]))])
         elif k in ("init", "load"):
             ops.append([k, draw(st.integers(0, 3))])
         elif k == "convert_rule":
